@@ -20,52 +20,14 @@ fn rd(cpu: &Cpu, a: u32) -> u8 {
     cpu.bus.read(a & 0x00ff_ffff).unwrap_or(0)
 }
 
-fn breg(er: &[u32; 8], r: u8) -> u8 {
-    if r < 8 {
-        (er[r as usize] >> 8) as u8
-    } else {
-        er[(r - 8) as usize] as u8
-    }
+fn is_timer(a: u32) -> bool {
+    matches!(a, TCR | TCSR | TCORA | TCORB | TCNT)
 }
 
-/// If the instruction at `pc` is one of the store forms generated guests use on a timer
-/// register, return (register, value it will write). `tcsr_now` etc. come from the real
-/// registers at the boundary (read-modify-write forms).
-pub fn decode_timer_store(cpu: &Cpu, pc: u32, er: &[u32; 8]) -> Option<(u32, u8)> {
-    let b0 = rd(cpu, pc);
-    let b1 = rd(cpu, pc + 1);
-    let is_timer = |a: u32| matches!(a, TCR | TCSR | TCORA | TCORB | TCNT);
-    if b0 & 0xf0 == 0x30 {
-        let a = 0xffff00 | b1 as u32;
-        if is_timer(a) {
-            return Some((a, breg(er, b0 & 0x0f)));
-        }
-    } else if b0 == 0x6a && b1 & 0xf0 == 0xa0 {
-        let a = ((rd(cpu, pc + 3) as u32) << 16) | ((rd(cpu, pc + 4) as u32) << 8) | rd(cpu, pc + 5) as u32;
-        if is_timer(a) {
-            return Some((a, breg(er, b1 & 0x0f)));
-        }
-    } else if b0 == 0x6a && b1 & 0xf0 == 0x80 {
-        let a16 = ((rd(cpu, pc + 2) as u16) << 8) | rd(cpu, pc + 3) as u16;
-        let a = (a16 as i16 as i32 as u32) & 0x00ff_ffff;
-        if is_timer(a) {
-            return Some((a, breg(er, b1 & 0x0f)));
-        }
-    } else if b0 == 0x7f {
-        let a = 0xffff00 | b1 as u32;
-        if is_timer(a) {
-            let o0 = rd(cpu, pc + 2);
-            let o1 = rd(cpu, pc + 3);
-            let bit = (o1 >> 4) & 7;
-            let cur = rd(cpu, a);
-            return match o0 {
-                0x70 => Some((a, cur | (1 << bit))),
-                0x72 => Some((a, cur & !(1 << bit))),
-                _ => None,
-            };
-        }
-    }
-    None
+/// Byte writes to timer registers the instruction at `pc` is about to perform: (register, value), in order.
+/// Read-modify-write forms are resolved against the model's view of the register at the time they execute.
+pub fn decode_timer_store(cpu: &Cpu, pc: u32, er: &[u32; 8]) -> Vec<(u32, crate::harness::decode::ByteStore)> {
+    crate::harness::decode::decode_stores(cpu, pc, er).into_iter().filter(|(a, _)| is_timer(*a)).collect()
 }
 
 impl TimerLockstep {
@@ -77,34 +39,54 @@ impl TimerLockstep {
         TimerRegs { tcr: rd(cpu, TCR), tcsr: rd(cpu, TCSR), tcora: rd(cpu, TCORA), tcorb: rd(cpu, TCORB), tcnt: rd(cpu, TCNT) }
     }
 
-    /// Call at every boundary. `pending_store` is what `decode_timer_store` said at the
-    /// previous boundary (evaluated there, with the registers of that moment).
-    pub fn boundary(&mut self, cpu: &Cpu, g: &Guest, row: &Row, prev: Option<&Row>, pending_store: Option<(u32, u8)>) -> Result<(), String> {
+    fn apply_write(&mut self, reg: u32, st: crate::harness::decode::ByteStore) {
+        use crate::harness::decode::ByteStore::*;
+        let mut after = match self.oracle.hyps.first() {
+            Some(h) => h.regs,
+            None => return,
+        };
+        let cur = match reg {
+            TCR => after.tcr,
+            TCSR => after.tcsr,
+            TCORA => after.tcora,
+            TCORB => after.tcorb,
+            _ => after.tcnt,
+        };
+        let val = match st {
+            Lit(v) => v,
+            BitSet(b) => cur | (1 << b),
+            BitClr(b) => cur & !(1 << b),
+        };
+        match reg {
+            TCR => after.tcr = val,
+            TCSR => after.tcsr = val,
+            TCORA => after.tcora = val,
+            TCORB => after.tcorb = val,
+            TCNT => after.tcnt = val,
+            _ => {}
+        }
+        self.oracle.cpu_write(reg, val, after);
+        self.writes_seen += 1;
+    }
+
+    /// Call at every boundary. `ext_writes` = bytes written from outside (`u8:` lines) at the top of the previous
+    /// iteration; `pending_store` = what `decode_timer_store` said at the previous boundary.
+    pub fn boundary(&mut self, cpu: &Cpu, g: &Guest, row: &Row, prev: Option<&Row>, ext_writes: &[(u32, u8)], pending_store: &[(u32, crate::harness::decode::ByteStore)]) -> Result<(), String> {
         if !self.enabled {
             return Ok(());
         }
         if let Some(p) = prev {
+            for (a, v) in ext_writes {
+                if is_timer(*a) {
+                    self.apply_write(*a, crate::harness::decode::ByteStore::Lit(*v));
+                }
+            }
             if row.state != p.state {
                 let entry = row.sp == p.sp.wrapping_sub(4) && g.handler_after_brn(row.pc).is_some();
                 if !entry {
-                    if let Some((reg, val)) = pending_store {
+                    for (reg, st) in pending_store {
                         // the store executed before its own charge reached the peripherals
-                        let mut after = Self::regs(cpu);
-                        // registers as they were right after the store, before the elapsed time:
-                        // take the model's view (all hypotheses agree with the real ones up to here)
-                        if let Some(h) = self.oracle.hyps.first() {
-                            after = h.regs;
-                        }
-                        match reg {
-                            TCR => after.tcr = val,
-                            TCSR => after.tcsr = val,
-                            TCORA => after.tcora = val,
-                            TCORB => after.tcorb = val,
-                            TCNT => after.tcnt = val,
-                            _ => {}
-                        }
-                        self.oracle.cpu_write(reg, val, after);
-                        self.writes_seen += 1;
+                        self.apply_write(*reg, *st);
                     }
                 }
                 let now = Self::regs(cpu);
